@@ -108,6 +108,7 @@ def norm_event(raw, prev_snapq_len):
                    "pending": side.get("pending", 0), "role": side.get("role", "-")}
     out["repl_lines"] = side.get("repl", [])
     out["dbs"] = norm_dump(raw.get("dump", {}))
+    out["putfail"] = any(r.get("failed") and r.get("m") == "PUT" for r in raw.get("extra", {}).get("requests", []))
     return out, qlen
 
 
